@@ -531,6 +531,7 @@ def alternating_saves(ctx):
         for period in (2, 3):
             base = os.path.join(ctx.tmpdir, f'alt-{kinds[0]}-{kinds[1]}-{period}-model')
             comp = wb.compile_mem(spec)
+            comp.evaluate('Sheet1!C1')          # (set_value needs the address in the cell map)
             case = {'kind': 'alternating-saves', 'kinds': list(kinds), 'period': period}
             try:
                 for k in range(7):
